@@ -236,6 +236,23 @@ func runC02(rc *RunCtx, torn bool) *simkit.Violation {
 		}
 	}
 
+	// retry configuration, variant: a Put that will meet a store error runs CONCURRENTLY with the other clients' Puts of
+	// overlapping content (its own client and Fs): whatever it does when it fails - cleaning up after itself included -
+	// the contents the others were acknowledged must stay intact
+	var failing *simkit.Task
+	if c02Retry && t.Bool(1, 2) {
+		ci := t.Choose(len(contents))
+		fc := w.Client("cfail")
+		ffs, err := newCafs(fc.Store(blob), kn)
+		if err != nil {
+			return Viol(prop, "harness", "cafs.New", "", "%v", err)
+		}
+		w.Faults = &simkit.FaultCfg{Plan: []*simkit.Planned{{Client: "cfail", Nth: t.Range(0, 5), Kind: simkit.Kind(int(simkit.FErr) + t.Choose(2))}}}
+		src, _ := drawSource(t, contents[ci], kn.leaf)
+		w.Note("client cfail puts content %d and meets one store error, concurrently with the others", ci)
+		failing = w.Go(fc, "put-failing-concurrent", func() (interface{}, error) { return ffs.Put(bg, src) })
+	}
+
 	// phase 1: concurrent puts
 	rounds := t.Range(1, 2)
 	acked := map[int]cafs.PutRes{}
@@ -263,6 +280,13 @@ func runC02(rc *RunCtx, torn bool) *simkit.Violation {
 				v.Property = prop
 			}
 			return v
+		}
+		if failing != nil && r == 0 {
+			w.Faults = nil
+			if failing.Err != nil {
+				w.Probe("nontrivial")
+				w.Probe("concurrent-put-failed-on-store-error")
+			}
 		}
 		for _, p := range puts {
 			if pv := taskProblem(prop, p.task, "Put"); pv != nil {
